@@ -82,5 +82,6 @@ class Packet:
                         # github.com/miguelgrinberg/python-engineio/issues/75
                         # for background on this decision
                         raise ValueError
-                except ValueError:
+                except (ValueError, RecursionError):
+                    # text that only looks like (very deeply nested) JSON
                     self.data = encoded_packet[1:]
